@@ -163,6 +163,21 @@ def eval_cond(c, row):
     return any(eval_cond(x, row) for x in c[1])
 
 
+def eval_cond3(c, known):
+    """three-valued: the value of c when only the atoms in `known` are decided (None = not determined)"""
+    if c is True or c is False:
+        return c
+    if c[0] == "atom":
+        return known.get(c[1])
+    if c[0] == "not":
+        v = eval_cond3(c[1], known)
+        return None if v is None else not v
+    vals = [eval_cond3(x, known) for x in c[1]]
+    if c[0] == "and":
+        return False if any(v is False for v in vals) else (None if any(v is None for v in vals) else True)
+    return True if any(v is True for v in vals) else (None if any(v is None for v in vals) else False)
+
+
 def val_atoms(v, acc=None):
     if acc is None:
         acc = set()
